@@ -2764,8 +2764,10 @@ def collapse_rests(rest_array):
     output_idx = []
     for i, rest in enumerate(rest_array):
         if i not in filter_idx:
+            # adjacency is decided on the integer division columns: float32 beat
+            # sums miss it (e.g. 1/3 + 4/3 != 5/3 in triplet rhythms)
             idxs = np.where(
-                (rest_array["onset_beat"] == rest["onset_beat"] + rest["duration_beat"])
+                (rest_array["onset_div"] == rest["onset_div"] + rest["duration_div"])
                 & (rest_array["voice"] == rest["voice"])
             )[0]
             for idx in idxs:
